@@ -64,3 +64,111 @@ pub fn signatures<C: OptCtx>(
         runtime_calls,
     })
 }
+
+// ---------------------------------------------------------------------------
+// The memory-relevant view of the LIR (what `RotoV/Model/BoundaryStore.lean`
+// checks): which instruction defines / reads through / writes through / hands
+// on which variable. Variables are named by their `Debug` text; every
+// `VarKind::Context` variable is named `$context`.
+
+/// One instruction in the notation of the Lean driver's `c05 prov`:
+/// `as ca of rd wr cp cl rt cm cs dr re ct`.
+#[derive(Clone, Debug, PartialEq, Eq)]
+pub struct MemOp {
+    pub op: &'static str,
+    /// the variable the instruction defines
+    pub to: Option<String>,
+    /// operands in the order of the driver's notation; `None` = a literal
+    /// (for `cs`: `[ctx, return pointer, args…]`, `None` = absent)
+    pub operands: Vec<Option<String>>,
+}
+
+/// One lowered item (function, filtermap, constant initialiser, generated
+/// clone/drop/eq helper).
+#[derive(Clone, Debug, PartialEq, Eq)]
+pub struct MemFn {
+    pub name: String,
+    pub ops: Vec<MemOp>,
+}
+
+fn mem_var(v: &crate::lir::Var) -> String {
+    match v.kind {
+        crate::lir::VarKind::Context => "$context".to_string(),
+        _ => format!("{v:?}"),
+    }
+}
+
+fn mem_operand(o: &crate::lir::Operand) -> Option<String> {
+    match o {
+        crate::lir::Operand::Place(v) => Some(mem_var(v)),
+        crate::lir::Operand::Value(_) => None,
+    }
+}
+
+fn mem_op(i: &crate::lir::Instruction) -> MemOp {
+    use crate::lir::Instruction::*;
+    let m = |op: &'static str, to: Option<&crate::lir::Var>, operands: Vec<Option<String>>| MemOp {
+        op,
+        to: to.map(mem_var),
+        operands,
+    };
+    match i {
+        Jump(_) | Switch { .. } => m("ct", None, vec![]),
+        Assign { to, val, .. } => m("as", Some(to), vec![mem_operand(val)]),
+        ConstantAddress { to, .. } => m("ca", Some(to), vec![]),
+        FunctionAddress { to, .. } => m("rt", Some(to), vec![]),
+        InitString { to, .. } => m("rt", Some(to), vec![]),
+        Initialize { to, .. } => m("rt", Some(to), vec![]),
+        Call { to, ctx, args, return_ptr, .. } => {
+            let mut ops = vec![
+                ctx.as_ref().and_then(mem_operand),
+                return_ptr.as_ref().map(mem_var),
+            ];
+            ops.extend(args.iter().map(mem_operand));
+            m("cs", to.as_ref().map(|t| &t.0), ops)
+        }
+        CallRuntime { args, .. } => m("rt", None, args.iter().map(mem_operand).collect()),
+        Return(v) => m("re", None, vec![v.as_ref().and_then(mem_operand)]),
+        IntCmp { to, left, right, .. }
+        | FloatCmp { to, left, right, .. }
+        | Add { to, left, right }
+        | Sub { to, left, right }
+        | Mul { to, left, right }
+        | Div { to, left, right, .. }
+        | Mod { to, left, right, .. }
+        | FDiv { to, left, right }
+        | Eq { to, left, right, .. } => m("cm", Some(to), vec![mem_operand(left), mem_operand(right)]),
+        Not { to, val } | Negate { to, val } => m("cm", Some(to), vec![mem_operand(val)]),
+        Offset { to, from, .. } => m("of", Some(to), vec![mem_operand(from)]),
+        Write { to, val } => m("wr", None, vec![mem_operand(to), mem_operand(val)]),
+        Read { to, from, .. } => m("rd", Some(to), vec![mem_operand(from)]),
+        Copy { to, from, .. } => m("cp", None, vec![mem_operand(to), mem_operand(from)]),
+        Clone { to, from, .. } => m("cl", None, vec![mem_operand(to), mem_operand(from)]),
+        Drop { var, .. } => m("dr", None, vec![mem_operand(var)]),
+    }
+}
+
+pub(crate) fn mem_fns(lir: &crate::lir::Lir) -> Vec<MemFn> {
+    lir.functions
+        .iter()
+        .map(|item| MemFn {
+            name: item.name.as_str().to_string(),
+            ops: item
+                .blocks
+                .iter()
+                .flat_map(|b| b.instructions.iter().map(mem_op))
+                .collect(),
+        })
+        .collect()
+}
+
+/// Parse, type check and lower `tree` against `rt`; the memory view of every
+/// lowered item.
+pub fn mem_ops<C: OptCtx>(
+    tree: FileTree,
+    rt: &Runtime<C>,
+) -> Result<Vec<MemFn>, RotoReport> {
+    let checked = tree.parse()?.typecheck(rt)?;
+    let lir = checked.lower_to_mir().lower_to_lir();
+    Ok(lir.verif_c05_mem_ops())
+}
